@@ -15,7 +15,7 @@ use vcore::{Run, Violation, util};
 use vhnsw::enumerate::{Item, for_each_history, items};
 use vhnsw::hist::{FlushRecord, Op, World, base_ops, no_panic, ops_short, quiet_panics, recover};
 use vhnsw::model::{Fail, Tally, check_index};
-use vhnsw::sut::{Cfg, Write, all_cfgs, commit_pos, flush_journal, load};
+use vhnsw::sut::{Cfg, Write, all_cfgs, commit_pos, flush_journal, flush_journal_stopping, load};
 
 /// base + ops on a fresh index (no oracle: part `hist` covers that), then the
 /// journalled final flush.
@@ -119,11 +119,114 @@ fn violation(cfg: &Cfg, base: &str, seed: u64, ops: &[Op], rec: Option<&FlushRec
     }
 }
 
+/// ONE node blob of the completely flushed image is lost (the store answers
+/// NotFound for it at reload; the loader is designed to survive that): load
+/// must succeed and answer from the surviving vectors right away — before any
+/// insert could self-heal — i.e. the full oracle + count against the state
+/// minus that id, never an error or an empty answer; then flush + load again.
+fn lost_blob_case(cfg: &Cfg, rec: &FlushRecord, seed: u64, victim: u64, tally: &mut Tally) -> Result<(), (Fail, &'static str)> {
+    let mut phase = "lost_blob_load";
+    let r = no_panic(|| {
+        anda_db_utils::verif::set_random_seed(Some(crash_seed(seed, 500 + victim as usize)));
+        let mut image = rec.before.with_prefix(&rec.journal, rec.journal.len());
+        image.nodes.remove(&victim);
+        let mut expect = rec.current.clone();
+        expect.remove(victim);
+        let index = load(&image).map_err(|e| Fail::new("load_error", e))?;
+        phase = "lost_blob_after_load";
+        check_index(&index, cfg.metric, cfg.dim, &expect, None, tally)?;
+        if let Some(v) = expect.live.values().next() {
+            tally.searches += 1;
+            match index.search_f32(v, 1) {
+                Ok(r) if !r.is_empty() => {}
+                other => return Err(Fail::new("empty_result", format!("{} vectors survive but search_f32({v:?}, 1) answered {other:?}", expect.len()))),
+            }
+        }
+        phase = "lost_blob_reflush";
+        let j2 = flush_journal(&index, 10_001).map_err(|e| Fail::new("flush_error", e))?;
+        image.apply_all(&j2);
+        let index2 = load(&image).map_err(|e| Fail::new("load_error", e))?;
+        phase = "lost_blob_after_reflush";
+        check_index(&index2, cfg.metric, cfg.dim, &expect, None, tally)?;
+        Ok(())
+    });
+    r.map_err(|f| (f, phase))
+}
+
+/// Cooperative stop: the node callback of `flush_with` answers `Ok(false)` at
+/// its j-th call ("stop before ids or metadata are committed; every dirty node
+/// and the watermark stay pending"). Neither ids nor metadata may be written;
+/// the image loads (each id holding its committed or its current vector); a
+/// later completing flush (+ purge, until nothing is pending) and load give
+/// exactly the current state. Ok(false) = the flush has fewer than j+1 node
+/// writes.
+fn stop_case(cfg: &Cfg, base: &str, seed: u64, ops: &[Op], j: usize, tally: &mut Tally) -> Result<bool, (Fail, &'static str)> {
+    let mut phase = "history";
+    let r = no_panic(|| {
+        let mut w = World::new(cfg, seed)?;
+        for op in base_ops(base) {
+            w.apply(&op)?;
+        }
+        for op in ops {
+            w.apply(op)?;
+        }
+        phase = "stopped_flush";
+        w.clock += 1;
+        let (journal, stopped) = flush_journal_stopping(&w.index, w.clock, j).map_err(|e| Fail::new("flush_error", e))?;
+        if !stopped {
+            return Ok(false);
+        }
+        if journal.iter().any(|x| matches!(x, Write::Ids(_) | Write::Meta(_))) {
+            return Err(Fail::new(
+                "commit_after_stop",
+                format!("the node callback stopped the flush at call {j}, yet the flush went on to write {:?}", journal.iter().map(|x| x.label()).collect::<Vec<_>>()),
+            ));
+        }
+        w.store.apply_all(&journal);
+        phase = "stopped_flush_load";
+        anda_db_utils::verif::set_random_seed(Some(crash_seed(seed, 700 + j)));
+        let loaded = load(&w.store).map_err(|e| Fail::new("load_error", e))?;
+        check_index(&loaded, cfg.metric, cfg.dim, &w.model, Some(&w.committed), tally)?;
+        drop(loaded);
+        phase = "completing_flush";
+        for round in 0..6 {
+            w.clock += 1;
+            let jn = flush_journal(&w.index, w.clock).map_err(|e| Fail::new("flush_error", e))?;
+            if jn.is_empty() {
+                break;
+            }
+            if round == 5 {
+                return Err(Fail::new("never_quiescent", "flush still writes after 6 passes".to_string()));
+            }
+            w.store.apply_all(&jn);
+        }
+        phase = "after_completing_flush";
+        let loaded = load(&w.store).map_err(|e| Fail::new("load_error", e))?;
+        check_index(&loaded, cfg.metric, cfg.dim, &w.model, None, tally)?;
+        Ok(true)
+    });
+    r.map_err(|f| (f, phase))
+}
+
+fn extra_violation(cfg: &Cfg, base: &str, seed: u64, ops: &[Op], what: &str, class: &str, phase: &str, f: &Fail, extra: serde_json::Value) -> Violation {
+    let mut replay = json!({"cfg": cfg, "base": base, "seed": seed, "ops": ops});
+    for (k, v) in extra.as_object().unwrap() {
+        replay[k] = v.clone();
+    }
+    Violation {
+        signature: format!("C12|crash|{}|{}|{}", f.kind, phase, class),
+        summary: format!("[{}] base {} layer-seed {} history [{}], {}; phase {}: {}", cfg.label(), base, seed, ops_short(ops), what, phase, f.detail),
+        replay,
+    }
+}
+
 #[derive(Default)]
 struct Agg {
     histories: u64,
     flushes_with_writes: u64,
     cases: u64,
+    lost_blob_cases: u64,
+    stop_cases: u64,
     searches: u64,
     max_journal: usize,
     distinct: BTreeSet<u64>,
@@ -138,7 +241,7 @@ fn push_violation(agg: &mut Agg, v: Violation) {
     }
 }
 
-fn run_item(item: &Item, deadline: Instant) -> Agg {
+fn run_item(item: &Item, extras: bool, deadline: Instant) -> Agg {
     let mut agg = Agg::default();
     let label = item.cfg.label();
     let done = for_each_history(item, &mut |ops| {
@@ -153,6 +256,61 @@ fn run_item(item: &Item, deadline: Instant) -> Agg {
                 return true;
             }
         };
+        if extras {
+            // (a) every single node blob of the complete image lost
+            for victim in rec.current.live.keys().copied().collect::<Vec<_>>() {
+                let mut tally = Tally::default();
+                let r = lost_blob_case(&item.cfg, &rec, item.seed, victim, &mut tally);
+                agg.lost_blob_cases += 1;
+                agg.searches += tally.searches;
+                agg.distinct.insert(util::fnv64(format!("{label}|{}|lost|{victim}", rec.current.key()).as_bytes()));
+                if let Err((f, phase)) = r {
+                    let v = extra_violation(
+                        &item.cfg,
+                        item.base,
+                        item.seed,
+                        ops,
+                        &format!("complete flush, then the image is loaded with node blob n_{victim} missing"),
+                        "one_blob_lost",
+                        phase,
+                        &f,
+                        json!({"lost_blob": victim}),
+                    );
+                    push_violation(&mut agg, v);
+                }
+            }
+            // (b) cooperative stop at every node callback
+            for j in 0..64 {
+                let mut tally = Tally::default();
+                let r = stop_case(&item.cfg, item.base, item.seed, ops, j, &mut tally);
+                agg.searches += tally.searches;
+                match r {
+                    Ok(false) => break,
+                    Ok(true) => {
+                        agg.stop_cases += 1;
+                        agg.distinct.insert(util::fnv64(format!("{label}|{}|{}|stop|{j}", rec.committed.key(), rec.current.key()).as_bytes()));
+                    }
+                    Err((f, phase)) => {
+                        agg.stop_cases += 1;
+                        let v = extra_violation(
+                            &item.cfg,
+                            item.base,
+                            item.seed,
+                            ops,
+                            &format!("then flush_with whose node callback answers Ok(false) at call {j}, later a completing flush"),
+                            "cooperative_stop",
+                            phase,
+                            &f,
+                            json!({"stop_at": j}),
+                        );
+                        push_violation(&mut agg, v);
+                        if phase == "history" {
+                            break;
+                        }
+                    }
+                }
+            }
+        }
         if rec.journal.is_empty() {
             return true;
         }
@@ -201,6 +359,26 @@ fn main() {
         let ops: Vec<Op> = serde_json::from_value(r["ops"].clone()).expect("ops");
         match record_of(&cfg, &base, seed, &ops) {
             Err(f) => run.violation(violation(&cfg, &base, seed, &ops, None, 0, "history", &f)),
+            Ok((rec, _)) if r["lost_blob"].is_u64() => {
+                let victim = r["lost_blob"].as_u64().unwrap();
+                let mut tally = Tally::default();
+                let res = lost_blob_case(&cfg, &rec, seed, victim, &mut tally);
+                run.add("evaluations", tally.searches);
+                println!("replay [{}] base {} seed {} [{}] blob n_{victim} lost -> {:?}", cfg.label(), base, seed, ops_short(&ops), res);
+                if let Err((f, phase)) = res {
+                    run.violation(extra_violation(&cfg, &base, seed, &ops, &format!("complete flush, then the image is loaded with node blob n_{victim} missing"), "one_blob_lost", phase, &f, json!({"lost_blob": victim})));
+                }
+            }
+            Ok(_) if r["stop_at"].is_u64() => {
+                let j = r["stop_at"].as_u64().unwrap() as usize;
+                let mut tally = Tally::default();
+                let res = stop_case(&cfg, &base, seed, &ops, j, &mut tally);
+                run.add("evaluations", tally.searches);
+                println!("replay [{}] base {} seed {} [{}] cooperative stop at node callback {j} -> {:?}", cfg.label(), base, seed, ops_short(&ops), res);
+                if let Err((f, phase)) = res {
+                    run.violation(extra_violation(&cfg, &base, seed, &ops, &format!("then flush_with whose node callback answers Ok(false) at call {j}, later a completing flush"), "cooperative_stop", phase, &f, json!({"stop_at": j})));
+                }
+            }
             Ok((rec, vectors)) => {
                 let ks: Vec<usize> = match r["k"].as_u64() {
                     Some(k) => vec![k as usize],
@@ -283,7 +461,9 @@ fn main() {
         };
         let work = items(&cs, &bases, &seeds, depth);
         let deadline = Instant::now() + std::time::Duration::from_secs_f64(run.remaining_s());
-        let aggs: Vec<Agg> = util::par_map(work, util::n_threads(), |item| run_item(&item, deadline));
+        // lost-blob and cooperative-stop sweeps: quick for histories of <= 1 operation, thorough for all
+        let extras = run.tier == vcore::Tier::Thorough || depth <= 1;
+        let aggs: Vec<Agg> = util::par_map(work, util::n_threads(), |item| run_item(&item, extras, deadline));
         let mut complete = true;
         let mut samples_here = 0;
         let mut last_sample_cfg: Option<serde_json::Value> = None;
@@ -292,6 +472,8 @@ fn main() {
             run.add("histories", a.histories);
             run.add("flushes_with_writes", a.flushes_with_writes);
             run.add("crash_cases", a.cases);
+            run.add("lost_blob_loads", a.lost_blob_cases);
+            run.add("cooperative_stop_flushes", a.stop_cases);
             run.add("evaluations", a.searches);
             max_journal = max_journal.max(a.max_journal);
             for k in a.distinct {
@@ -327,7 +509,12 @@ fn main() {
          of the last completed flush or its current one while the commit record is not written; exact once it is) -> crash recovery as \
          the database performs it (remove + re-insert of every id removed/updated since the last completed flush, insert ignoring \
          AlreadyExists of every id added) -> full soundness oracle + element count vs the current documents -> flush, load again, oracle \
-         again; evaluations = searches compared; distinct = distinct (configuration, committed state, current state, prefix length)",
+         again; evaluations = searches compared; distinct = distinct (configuration, committed state, current state, prefix length); \
+         LOST BLOB (quick: histories of <= 1 operation): the complete image with each single node blob missing in turn (incl. the entry \
+         node's) must load and answer at once from the surviving vectors (oracle + count vs state minus that id, no error, no empty \
+         answer), also after flush + load; COOPERATIVE STOP (same histories): flush_with whose node callback answers Ok(false) at call j, \
+         every j: neither ids nor metadata may be written, the image loads (old-or-new vectors), a later completing flush + load gives \
+         exactly the current state",
     );
     run.assume("each blob write / delete is atomic (object-store semantics); the crash recovery applied is a transcription of Collection::reconcile_mutation_intents + auto_repair_indexes restricted to the vector index");
     run.assume("layer assignment is exhaustive only over the declared layer seeds; the seed installed before loading image k is seed*1000+7+k");
